@@ -82,3 +82,16 @@ def unused_calc_swallowed(tree):
         if s[0] == "select" and s[2] is not None and s[5][0] == "un" and s[5][1][0] == "calc" and s[5][1][1] not in set(s[2]):
             return True
     return False
+
+
+def nested_compound_operand(tree):
+    """F14: a UNION operand that is itself a compound select and has to be parenthesised (a chain whose operand
+    select wraps another chain, possibly through nested selects without own clauses)."""
+    def is_compound_select(t):
+        return t[0] == "select" and t[5][0] == "chain"
+    for s in subtrees(tree):
+        if s[0] == "chain":
+            for side in (s[1], s[2]):
+                if is_compound_select(side):
+                    return True
+    return False
